@@ -63,7 +63,7 @@ CHECKS = {
     },
     "C13": {
         "level": "fault_enumeration",
-        "parts": [{"gen": "C13", "quick": 160, "thorough": 3200}],
+        "parts": [{"gen": "C13", "quick": 960, "thorough": 9600}],
         "rule": "one plan = one generated local handshake (class cycles over SOCKS5 CONNECT ipv4/domain/ipv6, HTTP CONNECT reg-name/ipv4/[ipv6], absolute-URI requests with/without port, "
                 "small and multi-KiB header blocks, and malformed variants: bad version, BIND/UDP-ASSOCIATE, bad address type, bad port, garbage). The handshake is delivered whole and then with every single "
                 "cut point of its bytes, seeded multi-cuts and byte-at-a-time, the client going quiet between pieces; each delivery is one evaluation (a fresh world with the real client and server). "
